@@ -56,6 +56,12 @@ static void build_injections(const std::string &doc, const RefResult &ref, std::
 		t = doc;
 		t.insert(p, lin[(salt + i) % 3]);
 		add(K_LINE_COMMENT, t, true, p, d);
+		if (i == tk.size())
+		{
+			// a line comment may also be ended by the end of the input
+			t = doc.substr(0, ref.end) + ((salt & 1) ? " // c" : "//c");
+			add(K_LINE_COMMENT, t, true, ref.end, 0);
+		}
 	}
 	for (size_t i = 0; i < tk.size(); i++)
 	{
